@@ -12,14 +12,17 @@ RULE = (
     "Part 'clobber' (shards = old file database in {GFF3, GTF, GFF3 after an update, GTF without inference, GFF3 with every feature "
     "deleted again} x new input in 3): force x input form {path, from_string, list of Features} x old database opened in this process "
     "before or not x call variant {plain, rejected merge_strategy/force_merge_fields combination, pragmas=None, input file older than "
-    "the database}. Without force create_db must raise and the file's canonical content must be unchanged (also for the failing call "
-    "variants); a failing variant must raise whatever force says; with force the import must not raise, the returned object and the "
-    "reopened file show the new directives/dialect/features, the file equals a fresh import canonically and no old feature survives. "
-    "Part 'reads' (shards = 4 old databases (not the emptied one) x first call): every sequence of length 1..3 (quick) / 1..4 "
-    "(thorough) over 19 read-style calls x a flag 'an earlier write on this object failed half-way', on a copy of the file, with a "
-    "sqlite statement trace on the connection (only SELECT/PRAGMA allowed; no call may raise other than FeatureNotFoundError), then a "
-    "canonical comparison of all tables of the closed file and of directives, dialect and counters of a reopened FeatureDB; byte "
-    "identity is recorded as an outcome. Non-trivial = every execution (each has an existing database that must survive)."
+    "the database} x (plain variant only) the database path written as absolute path, relative path, or a symbolic link in another "
+    "directory with a relative link text; create_db is called from a scratch working directory. Without force create_db must raise and "
+    "the file's canonical content must be unchanged (also for the failing call variants); a failing variant must raise whatever force "
+    "says; with force the import must not raise, the returned object and the reopened file show the new directives/dialect/features, "
+    "the file equals a fresh import canonically and no old feature survives. Part 'reads' (shards = 4 old databases (not the emptied "
+    "one) x first call): every sequence of length 1..3 (quick) / 1..4 (thorough) over 19 read-style calls x a flag 'an earlier write on "
+    "this object failed half-way' (single calls also x FeatureDB opened with default options, keep_order, sort_attribute_values or "
+    "custom pragmas), on a copy of the file, with a sqlite statement trace on the connection (only SELECT/PRAGMA allowed; no call may "
+    "raise other than FeatureNotFoundError), then a canonical comparison of all tables of the closed file and of directives, dialect "
+    "and counters of a reopened FeatureDB; byte identity is recorded as an outcome. Non-trivial = every execution (each has an existing "
+    "database that must survive). force is only named when True (the statement's 'unless force=True': the default refuses)."
 )
 ASSUMPTIONS = [
     "the statement trace sees every statement the connection executes (sqlite3.Connection.set_trace_callback)",
@@ -137,7 +140,8 @@ def body_clobber(ch, ctx):
     if pform == "relative":
         target = os.path.relpath(real)
     try:
-        db = gffutils.create_db(data, target, force=force, verbose=False, **dict(kw, **extra))
+        fkw = dict(force=True) if force else {}          # "raises unless force=True": without force the argument is left at its default
+        db = gffutils.create_db(data, target, verbose=False, **dict(kw, **dict(extra, **fkw)))
     except Exception as e:
         raised = e
     finally:
